@@ -7,7 +7,8 @@ from vlib.core import Ob
 from vlib.rvc import D, Mx, Exec, Ret, Thrown, SInt
 
 META = {
-    'level': 'proof', 'functions': [],
+    'level': 'other', 'functions': [],
+    'explanation': 'Deductive obligations (identities in exact real arithmetic, path logic by z3) generated from the AST of the real Map_Sphere::Initialize / Apply; coordinates, weights, boxes and presence patterns are symbolic, the number of parent beads is enumerated up to a bound, so every obligation is reported as bounded (coverage.bounded) and none is counted as an unbounded proof.',
     'trusted_base': ['clang 14 AST = the code g++ compiles', 'RVC executor with feasibility-checked path forking (z3), Eigen Vector3d algebra contracts',
                      'callee contracts: BoundaryCondition::BCShortestConnection and getShortestBoxDimension by their C02 contracts (proved in check C02), Bead getters as symbolic fields, '
                      'Tokenizer / Property access as value sources, std::accumulate/transform/copy/vector as models', 'machine arithmetic treated as mathematical'],
